@@ -16,6 +16,59 @@ from props import rw_common
 
 ID = 'C05'
 LEVEL = 'proof'
+EXPLANATION = (
+    'Modular deductive proof of the recursive-descent parser (a whole-parser unrolling was measured infeasible). '
+    'JSON::parse(StringReader&, bool) is cut mechanically, on every run, into five C functions: the dictionary, list, number and string '
+    'branches (brace blocks located by their introducing token sequence) and the dispatcher (the whole function text with each of those '
+    'blocks replaced by a call); plus skip_whitespace_and_comments, value_for_hex_char and the two string entry points. Every access to the '
+    'input goes through a StringReader member function (static scan of JSON.cc) and every such call is replaced by its C01/C02 contract, so '
+    '"never reads outside the input" is inherited from C02. The JSON value is an abstract stub (kind, int, element count, is_string, string '
+    'length + byte at a ghost index). O-1: every piece is enforced against "verif_exc in {0, parse_error, out_of_range}, cursor inside the '
+    'input and monotone, success => >= 1 byte consumed"; the recursive calls inside the container loops are replaced by the parser\'s own '
+    'contract (induction on the remaining length: each recursive call happens at a strictly larger offset, asserted). O-2: number, string, '
+    'whitespace/comment scanners run in lock-step with ghost automata written from RFC 8259 (one transition per consumed byte, injected into the '
+    'reader-call macro), unbounded in length by loop contracts: extent = longest match, integer <=> no fraction and no exponent, integer value = '
+    'Horner fold, each escape accepted iff RFC allows it and decoded to the spec byte, \\u above U+00FF rejected, hex only with extensions, '
+    'constants spelled out (n/t/f only with extensions). O-3: the container loops run in lock-step with a ghost DFA over the abstract token stream '
+    '(structural byte | end of input | value, the value being decided by the child contract), unbounded in the number of elements: code accepts '
+    '<=> DFA accepts, malformed => parse_error, unterminated => out_of_range, member count, cursor right behind the closing bracket.')
+TRUSTED = [
+    'stubs/C05_jval.h: abstract JSON value (kind / int / double / bool / member count / is_string / string length and one ghost-indexed byte), '
+    'the local std::string of the string branch as a vstr with capacity = input length, isdigit/isxdigit in the "C" locale',
+    'contracts/C05_json.h: the specification -- RFC 8259 grammar as ghost automata (number, string, whitespace, container DFA) and the four '
+    'documented extensions of src/JSON.hh; `catch (const out_of_range&)` catches exactly EXC_out_of_range',
+    'props/C05.py: the mechanical lowering steps specific to this property -- block cutting, hoisting of may-throw calls out of if/while conditions '
+    '(short-circuit order kept), splitting of nested may-throw calls (argument first), try/catch lowering (as props/C19.py LowerTry), '
+    'exception propagation after every may-throw statement; both evaluation orders of emplace(key.as_string(), parse(..)) are modelled',
+    'contracts/RW_reader.h, RW_typed.h (StringReader contracts, proved by C01/C02), stubs/vstr.h',
+    'replay/C05/json.cc: independent RFC 8259 reference parser used as the native oracle for counterexamples',
+]
+ASSUMPTIONS = [
+    'the reader cursor is inside the data on entry (offset <= length; C02 cursor invariant) and the input is shorter than 2^47 bytes',
+    'recursion depth (stack exhaustion) is not modelled: the statement bounds nesting by 500',
+    'allocation succeeds (std::string growth, JSON containers): bad_alloc is not modelled',
+    'group JSON.parse.number: signed overflow of the int64_t / int accumulators wraps (two\'s complement) -- the ghost flag novf marks numerals whose '
+    'magnitude exceeds INT64_MAX and the value clause is stated for the others; group JSON.parse.number.no-overflow re-proves the branch with '
+    '--signed-overflow-check on for numerals of at most 18 integer digits / 15 hex digits; the exponent accumulator `int e` (wraps for exponents '
+    '>= 2^31, i.e. ten or more digits) is exempted from the overflow check in both groups',
+    'isdigit/isxdigit are called with a possibly negative plain char (bytes >= 0x80): glibc tolerates this; modelled as "not a digit"',
+]
+DROPS = ('JSON value -> abstract stub; std::string -> vstr; StringReader& -> pointer, r.m(..) -> StringReader_m(r, ..) with the default argument '
+         'advance = true made explicit; text of exception messages (incl. the r.where() calls inside them); throw -> flag + return; try/catch -> '
+         'goto + if; `while (C)` with a may-throw call in C -> `while (1) { c = C; check; if (!c) break; ..}`; std::move; as_string() -> its type check')
+NOT_DECIDED = [
+    'floating-point VALUE of numbers with fraction/exponent (only kind and extent are decided; the native replay oracle compares values to 1e-6)',
+    'completeness of the constants: that the exact text null/true/false is always ACCEPTED needs "memcmp == 0 when the bytes are equal", which the '
+    'C01/C02 contract of skip_if does not state; decided: a constant is produced only for its spelled-out literal (or n/t/f with extensions), the '
+    'right value, the right extent',
+    'conformance is per grammar rule with children abstracted by the induction hypothesis (the deductive argument for recursive descent); there is '
+    'no end-to-end run; duplicate dictionary keys and the stored member values are not modelled (count only)',
+    'numerals whose magnitude exceeds INT64_MAX (incl. INT64_MIN, owned by C04) and exponents of ten or more digits: accumulate with signed overflow (UB)',
+    'OBSERVATIONS outside the statement, not counted as violations: the parser accepts in BOTH modes `\\xHH` escapes (not listed in JSON.hh), raw control '
+    'characters in strings, leading zeros (01), `1.` / `1e` / `-` / `0x` without digits; a lone `+` is parsed as the integer 0 and consumes nothing; '
+    'with extensions enabled a `/` that is the last byte of the input throws out_of_range from the comment look-ahead; an input ending inside a '
+    '\\u / \\x escape throws parse_error instead of out_of_range',
+]
 
 JS = 'src/JSON.cc'
 ST = 'src/Strings.cc'
@@ -322,7 +375,7 @@ def json_unit(ctx, src, loops):
                    Rule(r'(\bif \([^;]*?r\.get_s8\(false\) == \'\}\'[^;]*?\) \{)', r'C05_DICT_PEEK_A; \1', count=1, regex=True),
                    Rule(r'JSON key = JSON::parse\(r, disable_extensions\);',
                         'JVal key; ' + CHILD % ('key', 'C05_DICT_KEY_DONE'), count=1, regex=True),
-                   Rule(r"(\bif \(r\.get_s8\(\) != ':'\) \{)", r'C05_DICT_PEEK_D; \1', count=1, regex=True),
+                   Rule(r"(\bif \(r\.get_s8\(\) [!=]= '.'\) \{)", r'C05_DICT_PEEK_D; \1', count=1, regex=True),
                    # key.as_string() throws type_error when the key is not a string (JSON::as_string, checked below); the two
                    # arguments of emplace are indeterminately sequenced: both orders are modelled (nondet choice)
                    Rule(r'ret\.emplace\((?:std::)?move\(key\.as_string\(\)\), JSON::parse\(r, disable_extensions\)\);',
@@ -394,9 +447,8 @@ def json_unit(ctx, src, loops):
                new_header='void JSON_parse_cstr(const char* s, size_t size, bool disable_extensions, JVal* ret)',
                rules=[Rule(r'\bStringReader r\(s, size\);', 'StringReader verif_r; StringReader* r = &verif_r; StringReader_ctor(r, s, size, 0); C05_CSTR_ENTRY;', count=1, regex=True),
                       Rule(r'\bauto ret = JSON::parse\(r, disable_extensions\);', '(JSON_parse(r, disable_extensions, ret), C05_CSTR_PARSED);', count=1, regex=True),
-                      Rule(r'(\bif \(!r\.eof\(\)\) \{)', r'C05_CSTR_SKIPPED; \1', count=1, regex=True),
                       Rule(r'\breturn ret;', 'return;', count=1, regex=True),
-                      SKIP_RULE] + COMMON_TAIL)
+                      Rule(r'\bskip_whitespace_and_comments\(r, disable_extensions\);', 'C05_SKIP(r, disable_extensions); C05_CSTR_SKIPPED;', count=1, regex=True)] + COMMON_TAIL)
     u.function(src, JS, STR_SIG, ret_zero='',
                new_header='void JSON_parse_str(const vstr* s, bool disable_extensions, JVal* ret)',
                rules=[Rule(r'\breturn JSON::parse\(s\.data\(\), s\.size\(\), disable_extensions\);',
@@ -424,20 +476,30 @@ __CPROVER_decreases(r->length - r->offset)
 """ % RDG_,
     'list': "C05_CONTAINER_INV('[', ']', JV_LIST)",
     'dict': "C05_CONTAINER_INV('{', '}', JV_DICT)",
-    'string': '',
+    'string': """
+__CPROVER_assigns(verif_exc, r->offset, verif_data.size, __CPROVER_object_whole(verif_data.data), %s,
+                  g_j.sq, g_j.sc, g_j.su, g_j.sout, g_j.shas, g_j.sobs, g_j.sbyte, g_j.sn)
+__CPROVER_loop_invariant(verif_exc == 0 && r->offset <= r->length && r->offset > g_j.sstart && g_j.sq == SQ_BODY)
+__CPROVER_loop_invariant(verif_data.size == g_j.sn && verif_data.size <= r->offset - g_j.sstart - 1)
+__CPROVER_loop_invariant(g_sk < verif_data.size ==> (uint8_t)verif_data.data[g_sk] == g_j.sbyte)
+__CPROVER_decreases(r->length - r->offset)
+""" % RDG_,
     # number branch: 1 hex digits, 2 integer digits, 3 fraction digits, 4 exponent digits, 5/6 scaling by the exponent
     'num1': num_common('int_data') + """
 __CPROVER_loop_invariant(g_j.nhex && !disable_extensions && r->offset > g_j.nstart && (g_j.nq == NQ_HEXP || g_j.nq == NQ_HEX || g_j.nq == NQ_DEAD))
 __CPROVER_loop_invariant((g_j.nq != NQ_DEAD && !g_j.novf) ==> ((uint64_t)int_data == g_j.nacc && g_j.nacc <= 0x7FFFFFFFFFFFFFFFull))
 __CPROVER_loop_invariant(g_j.nq == NQ_HEXP ==> C05_ISHEX(C05_PEEK(r)))
+__CPROVER_loop_invariant(g_j.nq == NQ_DEAD ==> !C05_ISHEX(C05_PEEK(r)))
+C05_NUM_INV_HEX
 __CPROVER_decreases(r->length - r->offset)
 """,
     'num2': num_common('int_data') + """
 __CPROVER_loop_invariant(!g_j.nhex && (g_j.nq == NQ_START || g_j.nq == NQ_MINUS || g_j.nq == NQ_ZERO || g_j.nq == NQ_INT || g_j.nq == NQ_DEAD))
 __CPROVER_loop_invariant((g_j.nq != NQ_DEAD && !g_j.novf) ==> ((uint64_t)int_data == g_j.nacc && g_j.nacc <= 0x7FFFFFFFFFFFFFFFull))
-__CPROVER_loop_invariant(g_j.nq == NQ_ZERO ==> r->offset == g_j.nstart + (negative ? 2 : 1))
+__CPROVER_loop_invariant(g_j.nq == NQ_ZERO ==> (r->offset == g_j.nstart + (negative ? 2 : 1) && r->data[r->offset - 1] == '0'))
 __CPROVER_loop_invariant((g_j.nq == NQ_START || g_j.nq == NQ_MINUS) ==> r->offset == g_j.nstart + (negative ? 1 : 0))
 __CPROVER_loop_invariant((g_j.nq == NQ_INT || g_j.nq == NQ_DEAD) ==> r->offset > g_j.nstart + (negative ? 1 : 0))
+C05_NUM_INV_DEC
 __CPROVER_decreases(r->length - r->offset)
 """,
     'num3': num_common('float_data, this_place') + """
@@ -478,7 +540,7 @@ def plan(ctx):
     def G(name, unit, entry, enforce, function, **kw):
         """every function the unit calls that has a contract of its own is replaced by that contract"""
         kw.setdefault('object_bits', 9)      # dfcc's object-id-indexed sets cost 2^object_bits each: as small as the object count allows
-        kw.setdefault('timeout', 300)
+        kw.setdefault('timeout', 900 if ctx.tier == 'thorough' else 420)
         if enforce not in ('skip_whitespace_and_comments', 'JSON_parse'):
             kw.setdefault('defines', ['C05_LIGHT=1'])       # callers use the subset of the clauses they need
         text = lex.mask(U[unit].text()).replace('C05_SKIP(', 'skip_whitespace_and_comments(')
@@ -498,14 +560,33 @@ def plan(ctx):
       loops=True, kind='recursive', replay=RP('dict'), first='cadical')
     NOOVF = [c for c in DEFAULT_CHECKS if c not in ('--signed-overflow-check', '--undefined-shift-check')] + ['--no-signed-overflow-check', '--no-undefined-shift-check']
     G('JSON.parse.number', 'number', 'h_number', 'JSON_parse_number', 'JSON::parse(StringReader&, bool): number branch',
-      loops=True, kind='loop-contract', replay=RP('text'), fallback_unwind=10, defines=[], checks=NOOVF, first='cadical', object_bits=10,
+      loops=True, kind='loop-contract', replay=RP('number'), fallback_unwind=10, defines=[], checks=NOOVF, first='cadical', object_bits=10,
       clause_note='all numerals; signed overflow of the int64 / int accumulators wraps (two\'s complement), flagged by the ghost g_j.novf')
     G('JSON.parse.number.no-overflow', 'number', 'h_number', 'JSON_parse_number', 'JSON::parse(StringReader&, bool): number branch, no UB on in-range numerals',
-      loops=True, kind='loop-contract', replay=RP('text'), fallback_unwind=10, defines=['C05_NUM_RESTRICT=1'], first='cadical', object_bits=10,
+      loops=True, kind='loop-contract', replay=RP('number'), fallback_unwind=10, defines=['C05_NUM_RESTRICT=1'], first='cadical', object_bits=10,
       clause_note='numerals with at most 18 integer digits (15 hexadecimal digits): --signed-overflow-check on')
+    G('JSON.parse.string', 'string', 'h_string', 'JSON_parse_string', 'JSON::parse(StringReader&, bool): string branch',
+      loops=True, kind='loop-contract', replay=RP('string'), fallback_unwind=10, defines=[], first='cadical', object_bits=10)
     G('JSON.parse_cstr', 'entry', 'h_cstr', 'JSON_parse_cstr', 'JSON::parse(const char*, size_t, bool)', replay=RP('text'),
       replace=['StringReader_eof', 'JSON_parse', 'skip_whitespace_and_comments'])
     G('JSON.parse_str', 'entry', 'h_str', 'JSON_parse_str', 'JSON::parse(const std::string&, bool)', replace=['JSON_parse_cstr'], replay=RP('text'))
     return groups
 
 
+CLAIMED = True
+MANIFEST = dict(
+    category='proof',
+    text=('JSON::parse(StringReader&, bool) is cut mechanically into its dictionary, list, number and string branches and the dispatcher; these, '
+          'skip_whitespace_and_comments, value_for_hex_char and the two string entry points are put under contracts and discharged by cbmc with '
+          'every StringReader call replaced by its C01/C02 contract and the recursive calls replaced by the parser\'s own contract (induction on the '
+          'remaining input). Decided for all inputs (length, element count and nesting unbounded): only parse_error / out_of_range escape, the cursor '
+          'stays inside the input, container loops accept exactly the RFC 8259 grammar (+ trailing comma with extensions) via a lock-step ghost DFA, '
+          'number / string / whitespace scanners match ghost RFC automata byte by byte (extent, int-vs-float kind, integer value, escapes, decoded '
+          'bytes, hex and // comments only with extensions), constants, trailing-data rejection of the string entry points.'),
+    note=('Trusted: cbmc/goto-instrument, the answering solver, the extractor and the C05 lowering steps (condition hoisting, try/catch, propagation), '
+          'the abstract JSON value stub, the C01/C02 reader contracts, the ghost automata written from RFC 8259. Not decided: floating-point values, '
+          'acceptance-completeness of null/true/false (memcmp spec), numerals beyond int64, end-to-end composition is by induction over the piece contracts, '
+          'not by a run. Three genuine defects found and natively reproduced (strict mode rejects {} and []; exponent numbers stay integers / int_data *= 10 '
+          'overflows; non-string key leaks type_error); fixes/C05-1..3.patch. Observations outside the statement are listed in the evidence.'),
+    technique='function and loop contracts with ghost automata (lock-step specification), callee/recursive-call replacement by contract, goto-instrument --dfcc + cbmc (SAT/SMT portfolio) on mechanically extracted and exception-lowered C text',
+)
